@@ -25,15 +25,15 @@ type StCase struct {
 
 // readd: a backend name is removed and added again at ANOTHER address through the admin API of the real binary: traffic
 // for the name must reach the new address (and only it)
-func runReadd(tag string) (string, map[string]int) {
+func runReadd(tag string, strat int) (string, map[string]int) {
 	stats := map[string]int{"kind_readd": 1}
 	mk := func(who string) *httptest.Server {
-		return httptest.NewServer(http.HandlerFunc(func(w http.ResponseWriter, r *http.Request) { w.Write([]byte(who)) }))
+		return httptest.NewServer(http.HandlerFunc(func(w http.ResponseWriter, r *http.Request) { w.Write([]byte(who + ":" + r.URL.Path)) }))
 	}
 	oldS, newS := mk("old"), mk("new")
 	defer oldS.Close()
 	defer newS.Close()
-	cfg := wiConfig(WiCfg{Strategy: []string{"round_robin", "least_connections", "weighted_round_robin", "ip_hash", "ip_hash_consistent"}[len(tag)%5]}, freePort(), []string{oldS.URL})
+	cfg := wiConfig(WiCfg{Strategy: []string{"round_robin", "least_connections", "weighted_round_robin", "ip_hash", "ip_hash_consistent"}[strat%5]}, freePort(), []string{oldS.URL})
 	cfg.AdminAPI.Enabled, cfg.AdminAPI.Port = true, freePort()
 	hp, err := startHelios(cfg, "st."+tag)
 	if err != nil {
@@ -60,14 +60,39 @@ func runReadd(tag string) (string, map[string]int) {
 	a1, a2 := who(), who()
 	stats["before_"+before]++
 	stats["after_"+a1]++
-	adminOK := before == "old" && rm == 200 && (add == 200 || add == 201)
-	servedNew := a1 == "new" && a2 == "new"
+	adminOK := before == "old:/who" && rm == 200 && (add == 200 || add == 201)
+	servedNew := a1 == "new:/who" && a2 == "new:/who"
+	// the same name once more, now on the SAME server under a base path, and a second backend of that server under another one:
+	// every backend is reached under its own address
+	rm2 := post("/v1/backends/remove", `{"name":"b0"}`)
+	add2 := post("/v1/backends/add", fmt.Sprintf(`{"name":"b0","address":%q,"weight":1}`, newS.URL+"/green"))
+	add3 := post("/v1/backends/add", fmt.Sprintf(`{"name":"b1","address":%q,"weight":1}`, newS.URL+"/v2"))
+	seen := map[string]int{}
+	for i := 0; i < 12; i++ {
+		// a client address of its own per request, so that the hash strategies spread
+		r := rawExchange(front, buildRequest("GET", "/who", "st.local", [][2]string{{"X-Forwarded-For", fmt.Sprintf("10.3.%d.%d", i, 7*i+1)}}, nil, ""), "GET", 3*time.Second)
+		seen[strings.TrimSpace(string(r.Body))]++
+	}
+	adminOK = adminOK && rm2 == 200 && (add2 == 200 || add2 == 201) && (add3 == 200 || add3 == 201)
+	stats[fmt.Sprintf("codes_%d_%d_%d", rm2, add2, add3)]++
+	for k := range seen {
+		if k != "new:/green/who" && k != "new:/v2/who" {
+			servedNew = false
+			stats["after2_"+k]++
+		}
+	}
+	if seen["new:/green/who"] == 0 || seen["new:/v2/who"] == 0 {
+		stats["after2_one_sided"]++
+		if strat%5 == 0 || strat%5 == 2 { // the two rotating strategies must reach both
+			servedNew = false
+		}
+	}
 	return fmt.Sprintf("mkStCase 2 0 0 %s %s", B(servedNew), B(adminOK)), stats
 }
 
 func runStCase(c StCase, tag string) (string, map[string]int) {
 	if c.Kind == "readd" {
-		return runReadd(tag)
+		return runReadd(tag, c.Write) // for this kind the field carries the strategy
 	}
 	stats := map[string]int{"kind_" + c.Kind: 1}
 	be := httptest.NewServer(http.HandlerFunc(func(w http.ResponseWriter, r *http.Request) {
@@ -122,7 +147,7 @@ func runStCase(c StCase, tag string) (string, map[string]int) {
 
 func TestStall(t *testing.T) {
 	cw := NewCaseWriter("stall")
-	cases := []StCase{{Kind: "body", ReadTO: 1, Write: 30}, {Kind: "head", ReadTO: 1, Write: 30}, {Kind: "body", ReadTO: 1, Write: 0}, {Kind: "readd"}}
+	cases := []StCase{{Kind: "body", ReadTO: 1, Write: 30}, {Kind: "head", ReadTO: 1, Write: 30}, {Kind: "body", ReadTO: 1, Write: 0}, {Kind: "readd", Write: 1}, {Kind: "readd", Write: 0}, {Kind: "readd", Write: 3}}
 	if Tier() == "thorough" {
 		cases = append(cases, StCase{Kind: "body", ReadTO: 2, Write: 1}, StCase{Kind: "head", ReadTO: 2, Write: 0}, StCase{Kind: "body", ReadTO: 3, Write: 30})
 	}
